@@ -86,6 +86,50 @@ def client(args):
         out["error"] = type(e).__name__ + ":" + str(e)[:160]
     print(json.dumps(out))
 
+REQ = bytes([0, 7, 0, 0, 0, 6, 1, 3, 0, 0, 0, 1])
+
+def one_request(ctx, args, session=None):
+    """connect, handshake (offering `session` if given), one read request; -> (result, socket info)"""
+    r = {"handshake": "fail", "served": False, "reused": None, "version": None, "error": None}
+    try:
+        raw = socket.create_connection((args.host, args.port), timeout=5)
+        s = ctx.wrap_socket(raw, server_hostname=args.servername or None, session=session)
+        r["handshake"] = "ok"; r["reused"] = s.session_reused; r["version"] = s.version()
+        s.sendall(REQ)
+        data, end = read_some(s, args.wait)
+        r["served"] = (end == "frame" and len(data) >= 9 and data[7] == 3)
+        r["read_end"] = end
+        return r, s
+    except (ssl.SSLError, OSError) as e:
+        r["error"] = type(e).__name__ + ":" + str(e)[:120]
+        return r, None
+
+def resume_after_expiry(args):
+    """C09 resumption scenario, client side: (1) full handshake with a certificate that is still valid,
+    one request; keep the session. (2) wait until the certificate has expired. (3) control: a full
+    handshake with the same certificate must now be refused. (4) offer the kept session."""
+    out = {"role": "client", "scenario": "resume_after_expiry"}
+    ctx = ctx_for(args, False)
+    first, s = one_request(ctx, args)
+    out["first"] = first
+    sess = s.session if s else None
+    if s:
+        try: s.close()
+        except Exception: pass
+    time.sleep(max(0.0, args.expires_at + 2.0 - time.time()))
+    control, s2 = one_request(ctx_for(args, False), args)      # fresh context: nothing to resume
+    out["full_after_expiry"] = control
+    if s2:
+        try: s2.close()
+        except Exception: pass
+    if sess is not None:
+        resumed, s3 = one_request(ctx, args, session=sess)
+        out["resumed"] = resumed
+        if s3:
+            try: s3.close()
+            except Exception: pass
+    print(json.dumps(out))
+
 def flood(s, args, out):
     """a peer that pipelines `flood` requests (read 125 holding registers, transaction id k), reads
     nothing until `read_delay` seconds after the last one was sent, then reads until `wait` seconds
@@ -96,10 +140,17 @@ def flood(s, args, out):
     s.sendall(blob)
     time.sleep(args.read_delay)
     s.settimeout(args.wait)
-    frames = 0; order_ok = True; buf = b""; end = None; total = 0; recvs = 0
+    frames = 0; order_ok = True; buf = b""; end = None; total = 0; recvs = 0; stalls = 0
     try:
         while frames < n:
-            chunk = s.recv(16384)
+            try:
+                chunk = s.recv(16384)
+            except socket.timeout:
+                # silence: a loaded machine or a lost tail? wait once more, much longer, before deciding
+                stalls += 1
+                s.settimeout(15)
+                chunk = s.recv(16384)
+                s.settimeout(args.wait)
             if not chunk:
                 end = "eof"; break
             total += len(chunk); buf += chunk
@@ -117,7 +168,7 @@ def flood(s, args, out):
         end = "timeout"
     except (ssl.SSLError, OSError) as e:
         end = "error:" + type(e).__name__ + ":" + str(e)[:120]
-    out["flood"] = {"sent": n, "replies": frames, "in_order": order_ok, "bytes": total, "read_end": end, "partial_tail": len(buf)}
+    out["flood"] = {"sent": n, "replies": frames, "in_order": order_ok, "bytes": total, "read_end": end, "partial_tail": len(buf), "stalls": stalls}
     try: s.close()
     except Exception: pass
 
@@ -212,6 +263,43 @@ def server(args):
         out["error"] = type(e).__name__ + ":" + str(e)[:160]
     print(json.dumps(out))
 
+def server_multi(args):
+    """accept `--connections` connections one after the other on one SSLContext (so that sessions can be
+    resumed); answer every request genuinely until the peer closes or `--hold` seconds have passed, then
+    close. One JSON line with a list of per-connection records."""
+    out = {"role": "server", "connections": []}
+    ls = socket.socket(socket.AF_INET, socket.SOCK_STREAM)
+    ls.setsockopt(socket.SOL_SOCKET, socket.SO_REUSEADDR, 1)
+    ls.bind(("127.0.0.1", args.port)); ls.listen(8)
+    print("LISTENING %d" % ls.getsockname()[1], flush=True)
+    ctx = ctx_for(args, True)
+    for k in range(args.connections):
+        rec = {"accepted": False, "handshake": "fail", "reused": None, "served": 0, "error": None, "version": None}
+        ls.settimeout(args.accept_wait)
+        try:
+            conn, _ = ls.accept()
+            rec["accepted"] = True
+        except socket.timeout:
+            rec["error"] = "no connection"; out["connections"].append(rec); break
+        try:
+            conn.settimeout(5)
+            s = ctx.wrap_socket(conn, server_side=True)
+            rec["handshake"] = "ok"; rec["reused"] = s.session_reused; rec["version"] = s.version()
+            t0 = time.time()
+            hold = args.hold if k == 0 else 1.5
+            while time.time() - t0 < hold:
+                data, end = read_some(s, 0.25)
+                if end == "frame":
+                    s.sendall(modbus_reply(data)); rec["served"] += 1
+                elif end != "timeout":
+                    break
+            try: s.close()
+            except Exception: pass
+        except (ssl.SSLError, OSError) as e:
+            rec["error"] = type(e).__name__ + ":" + str(e)[:160]
+        out["connections"].append(rec)
+    print(json.dumps(out))
+
 def main():
     p = argparse.ArgumentParser()
     p.add_argument("mode", choices=["client", "server", "raw"])
@@ -225,7 +313,13 @@ def main():
     p.add_argument("--serve", type=int, default=1)
     p.add_argument("--flood", type=int, default=0); p.add_argument("--rcvbuf", type=int, default=0)
     p.add_argument("--read-delay", type=float, default=1.0); p.add_argument("--read-throttle-ms", type=float, default=0.0)
+    p.add_argument("--expires-at", type=float, default=0.0); p.add_argument("--connections", type=int, default=0)
+    p.add_argument("--hold", type=float, default=1.5)
     a = p.parse_args()
+    if a.mode == "client" and a.expires_at > 0:
+        return resume_after_expiry(a)
+    if a.mode == "server" and a.connections > 0:
+        return server_multi(a)
     {"client": client, "server": server, "raw": raw}[a.mode](a)
 
 if __name__ == "__main__":
